@@ -97,6 +97,14 @@ def errorToProto : Option GoErr → Option ProtoErr
   | some (.connect e) => some (connectToProto e)
   | some (.wrapped e) => some (connectToProto e)
 
+/-- `ConvertErrorToConnectError`: nil stays nil, a Connect error (also a wrapped one) is itself,
+anything else becomes a Connect error of code Unknown with the error's text -/
+def errorToConnect : Option GoErr → Option ConnectErr
+  | none => none
+  | some (.plain t) => some { code := codeUnknown, message := t, details := [] }
+  | some (.connect e) => some e
+  | some (.wrapped e) => some e
+
 /-- the message carries a value; the only thing a conversion may do to an unset message is
 to set it to the empty string (`GetMessage()` is the same). -/
 def ProtoErr.normalize (e : ProtoErr) : ProtoErr := { e with message := some e.getMessage }
